@@ -1076,6 +1076,29 @@ where
         let r = match res { Ok(Control::Break(k)) => json!(["break", k]), Ok(_) => json!(["done"]), Err(()) => json!(["panic"]) };
         json!({"starts": starts, "evs": evs, "res": r})
     }).collect::<Vec<_>>())));
+    f.insert(format!("dfsvr{}", tag), run(|| json!(cases.iter().map(|(starts, prune_node, prune_on, break_at, finish_prune)| {
+        let mut evs: Vec<Value> = vec![];
+        let res = guard(|| depth_first_search(g, starts.iter().map(|&i| fwd[i]), |e| {
+            let k = evs.len() as i64;
+            let (kind, a, b): (&str, i64, i64) = match e {
+                DfsEvent::Discover(n, t) => ("D", inv[&n] as i64, t.0 as i64),
+                DfsEvent::TreeEdge(u, v) => ("T", inv[&u] as i64, inv[&v] as i64),
+                DfsEvent::BackEdge(u, v) => ("B", inv[&u] as i64, inv[&v] as i64),
+                DfsEvent::CrossForwardEdge(u, v) => ("X", inv[&u] as i64, inv[&v] as i64),
+                DfsEvent::Finish(n, t) => ("F", inv[&n] as i64, t.0 as i64),
+            };
+            let c = if k == *break_at { "B" }
+                else if kind == "F" && *finish_prune && a == *prune_node { "P" }
+                else if kind == *prune_on && ((kind == "D" && a == *prune_node) || (kind == "T" && b == *prune_node)) { "P" }
+                else if (kind == "B" || kind == "X") && b == *prune_node { "P" }   // harmless prune on non-tree edges
+                else { "C" };
+            evs.push(json!([kind, a, b, c]));
+            // the same scripts through the Result<Control, E> visitor return type (its own ControlFlow impl)
+            Ok::<Control<i64>, ()>(match c { "B" => Control::Break(k), "P" => Control::Prune, _ => Control::Continue })
+        }));
+        let r = match res { Ok(Ok(Control::Break(k))) => json!(["break", k]), Ok(Ok(_)) => json!(["done"]), Ok(Err(())) => json!(["err"]), Err(()) => json!(["panic"]) };
+        json!({"starts": starts, "evs": evs, "res": r})
+    }).collect::<Vec<_>>())));
 }
 
 fn c08_topo<G>(g: G, inv: &std::collections::HashMap<G::NodeId, usize>, f: &mut Fields, n: usize, tag: &str)
